@@ -200,7 +200,7 @@ def run_trading(rnd, S, cfgk, intensity=1.0, script=None, analyser=False):
                     held = next((h["long"]["qty"] for h in pos["holdings"] if h["id"] == oid), 0)
                     k = srnd.random()
                     if k < 0.45:
-                        amt = srnd.choice([100, 200, 300, 1000, 5000, -100, -200, -1000, 150, -150, -99999, 100000, -held])
+                        amt = srnd.choice([100, 200, 300, 1000, 5000, -100, -200, -1000, 150, -150, -99999, 100000, -held, -held, held, held + 0.5, 250.7])
                         call.update(api="order_shares", args=(oid, amt, style.get_limit_price() if style else None))
                         res = api.order_shares(oid, amt, price_or_style=style)
                     elif k < 0.6:
@@ -224,9 +224,14 @@ def run_trading(rnd, S, cfgk, intensity=1.0, script=None, analyser=False):
                         call.update(api="order_percent", args=(oid, pc, style.get_limit_price() if style else None))
                         res = api.order_percent(oid, pc, price_or_style=style)
                     else:
-                        amt = srnd.choice([100, 300, -100, 0, 250])
-                        call.update(api="order", args=(oid, amt, style.get_limit_price() if style else None))
-                        res = api.order(oid, amt, price_or_style=style)
+                        if srnd.random() < 0.5:
+                            amt = srnd.choice([100, 300, -100, 0, 250, held, -held])
+                            call.update(api="order", args=(oid, amt, style.get_limit_price() if style else None))
+                            res = api.order(oid, amt, price_or_style=style)
+                        else:
+                            amt = srnd.choice([0, 100, 2 * held, held + 100, max(0, held - 100), held // 2])
+                            call.update(api="order_to", args=(oid, amt, style.get_limit_price() if style else None))
+                            res = api.order_to(oid, amt, price_or_style=style)
                 elif r < 0.75 and futs:
                     oid = srnd.choice(futs)
                     price = env.get_last_price(oid)
